@@ -20,6 +20,15 @@ DRIVER_DIR = os.path.join(VERIF, "driver")
 DRIVER_BIN = os.path.join(DRIVER_DIR, "target", "release", "sosfacts")
 
 
+class BuildError(SystemExit):
+    """The tree could not be analysed (it does not compile, or the driver is
+    missing): exit status 2 — neither 'held' (0) nor 'violation' (1)."""
+
+    def __init__(self, msg):
+        sys.stderr.write("[sosv] ERROR: %s\n" % msg)
+        super().__init__(2)
+
+
 def log(*a):
     print("[sosv]", *a, file=sys.stderr, flush=True)
 
@@ -75,7 +84,7 @@ def ensure_driver():
                        stdout=subprocess.PIPE, stderr=subprocess.STDOUT, text=True)
     if r.returncode != 0:
         sys.stderr.write(r.stdout)
-        raise SystemExit("driver build failed")
+        raise BuildError("driver build failed")
 
 
 def member_packages():
@@ -84,7 +93,7 @@ def member_packages():
                        stdout=subprocess.PIPE, stderr=subprocess.PIPE, text=True)
     if r.returncode != 0:
         sys.stderr.write(r.stderr)
-        raise SystemExit("cargo metadata failed")
+        raise BuildError("cargo metadata failed")
     md = json.loads(r.stdout)
     return sorted(p["name"] for p in md["packages"])
 
@@ -135,6 +144,10 @@ def ensure_facts(config="workspace", extra_args=None):
     if os.path.exists(marker):
         info["cached"] = True
         info.update(json.load(open(marker)))
+        try:
+            os.utime(os.path.dirname(fdir), None)   # keep recently used trees out of the pruning
+        except OSError:
+            pass
         return fdir, info
     lock = open(os.path.join(SCRATCH, "lock"), "w")
     fcntl.flock(lock, fcntl.LOCK_EX)
@@ -164,17 +177,17 @@ def ensure_facts(config="workspace", extra_args=None):
         if r.returncode != 0:
             sys.stderr.write(r.stdout[-6000:])
             shutil.rmtree(fdir, ignore_errors=True)
-            raise SystemExit("cargo check of /repo failed (config %s): the tree does not compile" % config)
+            raise BuildError("cargo check of /repo failed (config %s): the tree does not compile" % config)
         nfacts = len([f for f in os.listdir(fdir) if f.endswith(".jsonl")])
         if nfacts == 0:
-            raise SystemExit("driver produced no fact files")
+            raise BuildError("driver produced no fact files")
         meta = {"fact_files": nfacts, "build_s": round(time.time() - t0, 1),
                 "members": len(members)}
         with open(marker, "w") as fh:
             json.dump(meta, fh)
         info.update(meta)
         info["cached"] = False
-        _prune(facts_root, 4)
+        _prune(facts_root, 6)
         return fdir, info
     finally:
         fcntl.flock(lock, fcntl.LOCK_UN)
